@@ -364,7 +364,10 @@ class RealRelayProbe(Relay):
     # ---- HTTP relay: the real HttpRelay (with its connection pool) against the scripted HTTP next hop
     # of vf.poollab (own request reader, spoken over socket pairs)
     HTTP_PROFILE = ['ok', 'ok', 'ok', 'r450', 'r550', 'r451', 's404', 's500', 's503', 's302', 'close', 'okclose',
-                    'refuse']
+                    'refuse',
+                    # reply headers a foreign next hop may send: code without message, bare code, unquoted
+                    # message, extra parameters in another order
+                    'r550:nomsg', 'r451:nomsg', 'r550:bare', 'r450:bare', 'r451:unquoted', 'r550:extra', 'r450:extra']
 
     def _init_http(self):
         from vf.poollab import HttpDown
@@ -376,11 +379,14 @@ class RealRelayProbe(Relay):
             def script(self, ctx, stage):
                 return probe._http_script(ctx, stage)
 
-            def conn_opened(self, n):
+            def conn_opened(self, *a, **kw):
                 pass
 
-            def conn_closed(self, n, who):
+            def conn_closed(self, *a, **kw):
                 pass
+
+            def __getattr__(self, name):          # any further observer hook of HttpDown: ignore
+                return lambda *a, **kw: None
 
             def ev(self, *a):
                 pass
@@ -402,10 +408,11 @@ class RealRelayProbe(Relay):
         # one plan per request; the first request of a connection uses the plan drawn at connect time
         plan = self.plans.pop(('c', ctx['conn']), None) or rnd.choice(prof)
         if lab.draining:
-            plan = rnd.choice(['ok', 'r550'])
+            plan = rnd.choice(['ok', 'r550', 'r550:nomsg', 'r550:bare'])
         lab.log('http_plan', ctx.get('marker'), plan)
         if plan[0] == 'r':
-            return ('reply', plan[1:])
+            code, _, shape = plan[1:].partition(':')
+            return ('reply', code, shape) if shape else ('reply', code)
         if plan[0] == 's':
             return ('status', int(plan[1:]))
         if plan in ('close', 'okclose'):
